@@ -1,7 +1,7 @@
 ------------------------------- MODULE MCCasts -------------------------------
 EXTENDS Casts, Json
 LawsOnce == (c.from = "f64" /\ c.to = "f64" /\ c.v = 0) =>
-                NullPreserved /\ OptionComposes /\ PredicatesCoherent /\ ComparatorAxioms /\ TDAxioms /\ StrCoherent
+                NullPreserved /\ OptionComposes /\ PredicatesCoherent /\ ComparatorAxioms /\ TDAxioms /\ StrCoherent /\ IntoKindCoherent
 
 TagStr(t) == t
 Applies == IF c.from \in Types THEN HasVal(c.from, c.v) ELSE TRUE
